@@ -14,9 +14,11 @@ tier: B
 bound: text of the original = the empty string, host component = any one-character string set through the setter; loops unwound 4 with unwinding assertions
 unwind: 4
 backend: sat
+native: self
 funcs: spif_url_dup, spif_url_new_from_str, spif_url_init_from_str, spif_url_parse
 */
 #include "vprelude.h"
+#ifndef VERIF_NATIVE
 size_t strlen(const char *s) { size_t n = 0; while (s[n]) n++; return n; }
 size_t strnlen(const char *s, size_t m) { size_t n = 0; while (n < m && s[n]) n++; return n; }
 char *strchr(const char *s, int c) { for (;; s++) { if (*s == (char) c) return (char *) s; if (!*s) return 0; } }
@@ -25,8 +27,10 @@ char *index(const char *s, int c) { return strchr(s, c); }
 char *rindex(const char *s, int c) { return strchr(s, c); }
 char *strstr(const char *h, const char *n) { return 0; }
 char *strdup(const char *s) { size_t n = strlen(s) + 1, i; char *r = malloc(n); for (i = 0; i < n; i++) r[i] = s[i]; return r; }
+#endif
 #include "env_net.h"
 #include "url.h"
+#ifndef VERIF_NATIVE            /* native replay: the real str.c / obj.c */
 static SPIF_CONST_TYPE(strclass) s_class;
 SPIF_TYPE(class) SPIF_CLASS_VAR(str) = (spif_class_t) &s_class;
 SPIF_TYPE(strclass) SPIF_STRCLASS_VAR(str) = &s_class;
@@ -60,15 +64,21 @@ spif_bool_t spif_str_append_char(spif_str_t a, spif_char_t c) { return TRUE; }
 spif_bool_t spif_str_append_from_ptr(spif_str_t a, spif_charptr_t b) { return TRUE; }
 #undef SPIF_OBJ_DEL
 #define SPIF_OBJ_DEL(o) spif_str_del((spif_str_t) (o))
-#include "src/url.c"
+# include "src/url.c"
+#else
+# include "rawsrc/url.c"
+#endif
+
 
 void harness(void)
 {
     char host[2];
     spif_url_t u, v;
-    libast_debug_level = nondet_uint();
+    libast_debug_level = VND(uint, debug_level);
+#ifndef VERIF_NATIVE
     SPIF_CLASS_VAR(url) = &u_class;
-    host[0] = nondet_char(); host[1] = 0;
+#endif
+    host[0] = VND(char, host_c0); host[1] = 0;
     __CPROVER_assume(host[0] != 0);
     u = spif_url_new_from_ptr((spif_charptr_t) "");
     __CPROVER_assert(u != NULL && u->host == NULL, "the empty text has no host");
